@@ -103,6 +103,49 @@ theorem procmat_preserves (maxT minT : K) (ls out : List (Lay K))
   · rw [← total_resistance, ← total_resistance]; exact procmat_preserves_measure _ _ _ _ _ hmax hall h
   · rw [← total_capacity, ← total_capacity]; exact procmat_preserves_measure _ _ _ _ _ hmax hall h
 
+/-- The layers of a construction that are at least `minT` (1 cm) thick - the part the property speaks about. -/
+def thickPart (minT : K) (ls : List (Lay K)) : List (Lay K) := ls.filter (fun l => decide (minT ≤ l.d))
+
+private theorem total_flatMap_thick (g : LinMeasure K) {maxT minT : K} (hmax : 0 < maxT) (hmm : minT ≤ maxT)
+    (ls : List (Lay K)) :
+    g.total (ls.flatMap (splitLayer maxT minT)) = g.total (thickPart minT ls) := by
+  induction ls with
+  | nil => simp [LinMeasure.total, thickPart]
+  | cons l ls ih =>
+    rw [List.flatMap_cons, total_append, ih]
+    by_cases hl : minT ≤ l.d
+    · rw [total_splitLayer g l hmax hl]
+      simp [thickPart, hl, LinMeasure.total]
+    · have hlt : l.d < minT := not_le.mp hl
+      have hnot : ¬ l.d > maxT := not_lt.mpr (le_trans hlt.le hmm)
+      simp [thickPart, hl, splitLayer, hnot, hlt, LinMeasure.total]
+
+/-- T1 at full strength for multi-layer constructions (round 8): WHATEVER the thin layers are, the refined
+    construction carries exactly the thickness-linear measure of the layers of at least `minT` - thinner layers are
+    dropped and every other layer keeps ITS OWN conductivity and heat capacity. -/
+theorem procmat_preserves_thick_measure (g : LinMeasure K) (maxT minT : K) (l l' : Lay K) (rest out : List (Lay K))
+    (hmax : 0 < maxT) (hmm : minT ≤ maxT) (h : procmat maxT minT (l :: l' :: rest) = some out) :
+    g.total out = g.total (thickPart minT (l :: l' :: rest)) := by
+  simp only [procmat] at h; cases h
+  exact total_flatMap_thick g hmax hmm _
+
+/-- T1 (multi-layer, mixed thicknesses): total thickness, thermal resistance and heat capacity of the refined
+    construction are those of the layers of at least 1 cm. -/
+theorem procmat_preserves_thick (maxT minT : K) (l l' : Lay K) (rest out : List (Lay K))
+    (hmax : 0 < maxT) (hmm : minT ≤ maxT) (h : procmat maxT minT (l :: l' :: rest) = some out) :
+    totalThickness out = totalThickness (thickPart minT (l :: l' :: rest)) ∧
+    totalResistance out = totalResistance (thickPart minT (l :: l' :: rest)) ∧
+    totalCapacity out = totalCapacity (thickPart minT (l :: l' :: rest)) := by
+  refine ⟨?_, ?_, ?_⟩
+  · rw [← total_thickness, ← total_thickness]; exact procmat_preserves_thick_measure _ _ _ _ _ _ _ hmax hmm h
+  · rw [← total_resistance, ← total_resistance]; exact procmat_preserves_thick_measure _ _ _ _ _ _ _ hmax hmm h
+  · rw [← total_capacity, ← total_capacity]; exact procmat_preserves_thick_measure _ _ _ _ _ _ _ hmax hmm h
+
+/-- Non-vacuity: a wall with a 5 mm membrane between two thick layers; the membrane goes, its neighbours keep
+    their own materials. -/
+example : procmat (1/20 : ℚ) (1/100) [⟨1/10, 2, 100⟩, ⟨1/200, 5, 7⟩, ⟨2/25, 3, 50⟩] =
+    some [⟨1/20, 2, 100⟩, ⟨1/20, 2, 100⟩, ⟨1/25, 3, 50⟩, ⟨1/25, 3, 50⟩] := by decide +kernel
+
 private theorem subdivide_shape {maxT : K} (l : Lay K) (hmax : 0 < maxT) (hd : maxT < l.d) :
     2 ≤ (subdivide maxT l).length ∧ ∀ q ∈ subdivide maxT l, q.d ≤ maxT := by
   have hn := ceil_pos_of_gt hmax hd
